@@ -15,8 +15,9 @@ abbrev Coords := (Int → Int) × (Int → Int) × (Int → Int) × (Int → Int
 structure State where
   /-- abstract content of every cell (array bytes / object state) -/
   val : Cell → Int
-  /-- arrays an object holds by reference (`Plane._amplitude = np.asarray(amplitude)`) -/
-  refs : Cell → List Cell
+  /-- arrays an object holds by reference, with the attribute that holds them (`Plane._amplitude = np.asarray(amplitude)` ↦
+  `("amplitude", cell)`; leading underscores dropped) -/
+  refs : Cell → List (String × Cell)
   /-- state of NumPy's global generator -/
   rng : Int
   /-- the `lru_cache` of `_dft2_coords` -/
@@ -52,9 +53,19 @@ def writeSlots (tbl : List Gen.EffRow) (op : Op) : List String :=
   | some r => if inplaceGated.contains op.fn && !op.inplace then [] else r.writes.map (·.1)
   | none => op.bind.map (·.1)
 
-/-- cells the op may write: the cells bound to its write slots and everything those objects hold by reference -/
+/-- attributes through which the function's in-place write sites on `slot` go (regenerated `writePaths`); empty = unknown
+(a write through a callee, an `out=` buffer, a function missing from the table): then every attribute may be written -/
+def writeAttrs (tbl : List Gen.EffRow) (op : Op) (slot : String) : List String :=
+  match row? tbl op.fn with
+  | some r => (r.writePaths.filter fun p => p.1 == slot).map (·.2)
+  | none => []
+
+/-- cells the op may write: the cells bound to its write slots and, of what those objects hold by reference, the cells held through
+an attribute the function's write sites go through (slot- and attribute-specific: `fit_tilt` may write the plane and its `opd`
+array, never its `amplitude` or `mask`) -/
 def writeCells (tbl : List Gen.EffRow) (s : State) (op : Op) : List Cell :=
-  (op.bind.filter fun b => (writeSlots tbl op).contains b.1).flatMap fun b => b.2 :: s.refs b.2
+  (op.bind.filter fun b => (writeSlots tbl op).contains b.1).flatMap fun b =>
+    b.2 :: ((s.refs b.2).filter fun r => (writeAttrs tbl op b.1).isEmpty || (writeAttrs tbl op b.1).contains r.1).map (·.2)
 
 def usesGlobalRng (tbl : List Gen.EffRow) (fn : String) : Bool :=
   match row? tbl fn with
@@ -67,10 +78,10 @@ def writesCache (tbl : List Gen.EffRow) (fn : String) : Bool :=
   | none => true
 
 /-- cells captured by the result: for a constructor, the cells bound to the parameters its attributes alias -/
-def capturedBy (tbl : List Gen.EffRow) (op : Op) : List Cell :=
+def capturedBy (tbl : List Gen.EffRow) (op : Op) : List (String × Cell) :=
   match row? tbl op.fn with
-  | some r => (op.bind.filter fun b => (r.captures.map (·.2)).contains b.1).map (·.2)
-  | none => op.bind.map (·.2)
+  | some r => r.captures.flatMap fun cp => (op.bind.filter fun b => b.1 == cp.2).map fun b => (cp.1, b.2)
+  | none => op.bind.map fun b => ("?", b.2)
 
 /-- `arange(n) - floor(n/2)` -/
 def cc (n i : Int) : Int := i - n / 2
